@@ -199,20 +199,16 @@ def extractInt32 (s : IStream) : Option Int × IStream :=
   else (none, s1)
 
 /-- main loop of `num_get::_M_extract_float` ("C" locale): `fm` found a mantissa digit, `fd` found the decimal
-    point, `fs` found the exponent letter.  `x` is the text handed to `strtod` (reversed), `l` the consumed side. -/
-def floatLoop : Bool → Bool → Bool → List Byte → List Byte → List Byte → List Byte × List Byte × List Byte
-  | _, _, _, x, l, [] => (x, l, [])
-  | fm, fd, fs, x, l, c :: r =>
-    if isDigit c then floatLoop true fd fs (c :: x) (c :: l) r
-    else if c == 46 && !fd && !fs then floatLoop fm true fs (46 :: x) (46 :: l) r
-    else if (c == 101 || c == 69) && !fs && fm then
-      match r with
-      | [] => (101 :: x, c :: l, [])
-      | sg :: r' =>
-        if sg == 43 || sg == 45 then floatLoop fm fd true (sg :: 101 :: x) (sg :: c :: l) r'
-        else floatLoop fm fd true (101 :: x) (c :: l) (sg :: r')
+    point, `fs` found the exponent letter, `ae` the previous character was the exponent letter (a sign may follow).
+    `x` is the text handed to `strtod` (reversed), `l` the consumed side. -/
+def floatLoop : Bool → Bool → Bool → Bool → List Byte → List Byte → List Byte → List Byte × List Byte × List Byte
+  | _, _, _, _, x, l, [] => (x, l, [])
+  | fm, fd, fs, ae, x, l, c :: r =>
+    if ae && (c == 43 || c == 45) then floatLoop fm fd fs false (c :: x) (c :: l) r
+    else if isDigit c then floatLoop true fd fs false (c :: x) (c :: l) r
+    else if c == 46 && !fd && !fs then floatLoop fm true fs false (46 :: x) (46 :: l) r
+    else if (c == 101 || c == 69) && !fs && fm then floatLoop fm fd true true (101 :: x) (c :: l) r
     else (x, l, c :: r)
-termination_by _ _ _ _ _ r => r.length
 
 /-- skip leading zeros: (found any, consumed side, rest) -/
 def dropZeros : Bool → List Byte → List Byte → Bool × List Byte × List Byte
@@ -228,7 +224,7 @@ def scanFloat (left right : List Byte) : List Byte × List Byte × List Byte :=
     | _ => ([], left, right)
   let (fz, l2, r2) := dropZeros false l1 r1
   let x1 := if fz then 48 :: x0 else x0
-  let (x, l3, r3) := floatLoop fz false false x1 l2 r2
+  let (x, l3, r3) := floatLoop fz false false false x1 l2 r2
   (x.reverse, l3, r3)
 
 /-- the lexical stage of `in >> d` on the stream: `none` = sentry refused; otherwise the text given to `strtod`.
